@@ -471,6 +471,9 @@ def validate(rep):
 def make_replay(rep):
     def replay(c):
         w = c['witness']
+        if c['kind'] == 'base':
+            from specs import basecheck
+            return basecheck.replay(scn, c)
         if c['kind'] == 'normpath':
             ok_all = True
             detail = []
@@ -608,10 +611,15 @@ def py_relpath(t, base):
 
 # --------------------------------------------------------------------------------- main
 rep = Replayer(log)
+from lib.scenario import Scenario
+scn = Scenario(log)
 try:
-    for n in range(0, N_NORM + 1):
+    if not os.environ.get('VERIF_OBL') or 'base' in os.environ.get('VERIF_OBL'):
+        from specs import basecheck
+        basecheck.base_discovery(chk)
+    for n in range(0, N_NORM + 1 if not os.environ.get('VERIF_OBL') else 0):
         normpath_obligations(n)
-    for n in range(0, N_REL + 1):
+    for n in range(0, N_REL + 1 if not os.environ.get('VERIF_OBL') else 0):
         relpath_obligations(n, False)
     canonicalize_error_obligation()
     if chk.thorough():
@@ -621,3 +629,4 @@ try:
     chk.finish(make_replay(rep))
 finally:
     rep.cleanup()
+    scn.cleanup()
